@@ -396,7 +396,10 @@ def _derived_post_factory(opname):
                      % (opname, o["meta"], _meta_of(result)), case)
             if _units_of(result) != o["units"]:
                 fire("C17", "units-lost", "%s: units/columns %r became %r" % (opname, o["units"], _units_of(result)), case)
-            if opname == "median_period":
+            if opname == "median_period" and len(result) != 1:
+                fire("C17", "median_period-not-one-row", "median_period returned %d rows (the property: one actual member row)"
+                     % len(result), case)
+            elif opname == "median_period":
                 P0 = o["cols"]["P"][0]
                 want = np.sort(P0)[len(P0) // 2]
                 Pr = float(np.squeeze(result["P"].value))
